@@ -30,18 +30,18 @@ const (
 
 // Obligation is the aggregated result of one assertion id across all paths.
 type Obligation struct {
-	ID      string            `json:"id"`
-	Status  Status            `json:"status"`
-	Kind    string            `json:"kind"` // valid | witness | concrete
-	Paths   int               `json:"paths"`
-	Queries int               `json:"queries"`
+	ID      string `json:"id"`
+	Status  Status `json:"status"`
+	Kind    string `json:"kind"` // valid | witness | concrete
+	Paths   int    `json:"paths"`
+	Queries int    `json:"queries"`
 	// Syntactic counts the paths on which the obligation reduced to `true` under the polynomial
 	// normal form and the path substitution, so that no solver query was needed.
-	Syntactic int             `json:"syntactic"`
+	Syntactic int `json:"syntactic"`
 	// RawConfirmed counts the paths on which the solver re-proved the obligation in raw form.
-	RawConfirmed int          `json:"raw_confirmed"`
-	Model   map[string]string `json:"model,omitempty"`
-	Reason  string            `json:"reason,omitempty"`
+	RawConfirmed int               `json:"raw_confirmed"`
+	Model        map[string]string `json:"model,omitempty"`
+	Reason       string            `json:"reason,omitempty"`
 }
 
 // Outcome is the result of exploring one harness.
@@ -71,7 +71,7 @@ type Options struct {
 	// CrossSolver, when set, re-asks every validity query to this second solver; disagreement
 	// makes the obligation inconclusive.
 	CrossSolver string
-	Trace      bool
+	Trace       bool
 	// NoRawRecheck disables the second, raw-form solver query of validity obligations.
 	NoRawRecheck bool
 	// RawTimeoutMs is the timeout of raw-form queries (default 5000).
@@ -87,13 +87,13 @@ type Engine struct {
 	rng    *rand.Rand
 
 	// statistics
-	DecideQueries int
-	ValidQueries  int
-	SeededSat     int
-	OpenSat       int
-	CrossChecks   int
-	CrossDisagree int
-	SyntacticValid int
+	DecideQueries                                              int
+	ValidQueries                                               int
+	SeededSat                                                  int
+	OpenSat                                                    int
+	CrossChecks                                                int
+	CrossDisagree                                              int
+	SyntacticValid                                             int
 	RawChecks, RawConfirmed, RawUnknown, RawDisagree, RawNodes int
 
 	rawSolver       *Solver
@@ -287,24 +287,25 @@ func IsEnginePanic(x any) bool {
 type Run struct {
 	// mu serialises the entry points used by library code: some library code (sigand) runs
 	// sub-protocols in goroutines that sample randomness and compare elements concurrently.
-	mu     sync.Mutex
-	eng    *Engine
-	q      *big.Int
-	field  *Field
-	group  *Group
-	vars   map[string]*varInfo // shared by all runs of one exploration (stable ids across re-execution)
-	byID   *[]*varInfo
-	script []scriptLit // literals pre-asserted for this path
-	local  []scriptLit // forks taken during this run
-	path   []Pred      // script literals + assumptions, in assertion order
-	pathK  map[string]bool
+	mu       sync.Mutex
+	eng      *Engine
+	q        *big.Int
+	field    *Field
+	group    *Group
+	vars     map[string]*varInfo // shared by all runs of one exploration (stable ids across re-execution)
+	byID     *[]*varInfo
+	script   []scriptLit // literals pre-asserted for this path
+	local    []scriptLit // forks taken during this run
+	path     []Pred      // script literals + assumptions, in assertion order
+	pathK    map[string]bool
 	newForks [][]scriptLit
-	depth  int
+	depth    int
 
-	generic  []Pred // genericity assumptions (lazily added to queries, see DESIGN §4.1)
-	genericK map[string]bool
-	interned []internEntry
-	handleIx map[string]int
+	serializationOnly bool
+	generic           []Pred // genericity assumptions (lazily added to queries, see DESIGN §4.1)
+	genericK          map[string]bool
+	interned          []internEntry
+	handleIx          map[string]int
 
 	witness   map[int]*big.Int
 	witnessOK bool
